@@ -260,7 +260,11 @@ class Interp:
         if v.ty is not None and issubclass(v.ty, BaseException):
             yield st, True
             return
-        yield from self.fork_on(st, T.F_truth(self.term(st, v)))
+        t = self.term(st, v)
+        if getattr(self, "index_safety", False):
+            # a tuple is true exactly when it is not empty (the only falsy instance of `tuple` is ())
+            st.assume(z3.Implies(T.F_cls(t) == self.reg.cls(tuple), T.F_truth(t) == (T.F_len(t) > 0)))
+        yield from self.fork_on(st, T.F_truth(t))
 
     def fork_on(self, st: St, cond):
         """Fork on a z3 Bool; prunes infeasible sides with the solver."""
